@@ -118,9 +118,10 @@ func (f *FlagSet) ParseFlags(args, environ, prefixes []string, p *properties.Pro
 	})
 
 	// lookup the rest via environ and properties
+	var err error
 	f.VisitAll(func(fl *flag.Flag) {
-		// skip if already set
-		if f.set[fl.Name] {
+		// skip if already set or if a value was rejected
+		if f.set[fl.Name] || err != nil {
 			return
 		}
 
@@ -129,7 +130,9 @@ func (f *FlagSet) ParseFlags(args, environ, prefixes []string, p *properties.Pro
 			name := strings.ToUpper(pfx + strings.Replace(fl.Name, ".", "_", -1))
 			if val, ok := env[name]; ok {
 				f.set[fl.Name] = true
-				f.Set(fl.Name, val)
+				if e := f.Set(fl.Name, val); e != nil {
+					err = fmt.Errorf("invalid value %q for environment variable %s: %v", val, name, e)
+				}
 				return
 			}
 		}
@@ -140,9 +143,11 @@ func (f *FlagSet) ParseFlags(args, environ, prefixes []string, p *properties.Pro
 		}
 		if val, ok := p.Get(fl.Name); ok {
 			f.set[fl.Name] = true
-			f.Set(fl.Name, val)
+			if e := f.Set(fl.Name, val); e != nil {
+				err = fmt.Errorf("invalid value %q for property %s: %v", val, fl.Name, e)
+			}
 			return
 		}
 	})
-	return nil
+	return err
 }
